@@ -57,7 +57,7 @@ static ev_t * evlog;
 static size_t nlog, caplog = 600000;
 static volatile int lk;
 static volatile int recording, overflow;
-static volatile long n_probe_bad, n_selfrel, n_poison_bad, n_canary_bad, n_result_bad, n_fin_done, n_done, n_created, n_joined;
+static volatile long n_alloc_desc, n_probe_bad, n_selfrel, n_poison_bad, n_canary_bad, n_result_bad, n_fin_done, n_done, n_created, n_joined;
 static uintptr_t first_bad_addr;
 
 static void lock(void) { while (__sync_lock_test_and_set(&lk, 1)) { while (lk) ; } }
@@ -123,6 +123,7 @@ static void cb(int kind, const char * id, const void * obj, long val) {
   lock();
   switch (k) {
   case ALLOC_DESC:
+    n_alloc_desc++;
     pending_desc[rank & 63] = obj; extra = pending_det[rank & 63];
     break;
   case ALLOC_STACK: {
@@ -386,18 +387,32 @@ int main(int argc, char ** argv) {
     } else if (sscanf(op, "Y%d", &n) == 1) {
       while (n-- > 0) myth_yield();
     } else if (op[0] == 'O') {
-      /* O<size>: the public setter with a (huge) size, then a creation with that attribute; no stack
-         painting.  Prints what the library did; a crash is reported by the signal handler. */
+      /* O<size>: the size guard of the public API.  (1) the setter on an attribute holding the default:
+         return code, field before / after; (2) myth_create_ex with an attribute whose stacksize field
+         was written by hand: return code, number of alloc.desc events it caused; (3) if the setter
+         accepted the size: creation through it, join (mmap is lazy, the stack is not painted).
+         One line per step; a crash is reported by the signal handler after the lines printed so far. */
       unsigned long sz = strtoul(op + 1, 0, 0);
-      myth_thread_attr_t at; myth_thread_t th = 0; void * res = 0;
-      int rs, rc, rj = -1;
+      myth_thread_attr_t at, hand; myth_thread_t th = 0; void * res = 0;
+      int rs, rc = -1, rj = -1, rh; size_t before, after; long d0;
       myth_thread_attr_init(&at);
+      before = at.stacksize;
       rs = myth_thread_attr_setstacksize(&at, (size_t)sz);
-      printf("O size %lu set %d\n", sz, rs); fflush(stdout);
+      after = at.stacksize;
+      printf("O size %lu set %d before %zu after %zu\n", sz, rs, before, after); fflush(stdout);
+      myth_thread_attr_init(&hand);
+      hand.stacksize = (size_t)sz;
       pending_det[g_worker_rank & 63] = 0;
-      rc = (rs == 0) ? myth_create_ex(&th, &at, tiny_body, (void *)7) : -1;
-      if (rs == 0 && rc == 0) rj = myth_join(th, &res);
-      printf("O size %lu set %d create %d join %d result %ld\n", sz, rs, rc, rj, (long)res); fflush(stdout);
+      d0 = n_alloc_desc; th = 0;
+      rh = myth_create_ex(&th, &hand, tiny_body, (void *)7);
+      if (rh == 0) { rj = myth_join(th, &res); }
+      printf("O size %lu hand create %d allocdesc %ld join %d result %ld\n", sz, rh, n_alloc_desc - d0, rj, (long)res); fflush(stdout);
+      rj = -1; res = 0; th = 0;
+      if (rs == 0) {
+        rc = myth_create_ex(&th, &at, tiny_body, (void *)7);
+        if (rc == 0) rj = myth_join(th, &res);
+      }
+      printf("O size %lu via-setter create %d join %d result %ld\n", sz, rc, rj, (long)res); fflush(stdout);
     } else if (op[0] == 'E') {
       start_epoch(op, 0);
     } else { printf("R badop %s\n", op); return 2; }
